@@ -1617,6 +1617,12 @@ func (s *Sim) builtin(fr *Frame, st *State, x *ssa.Call, ev *Event) *Term {
 				return intTerm(n)
 			}
 		}
+		if a[0].Op == "slice" && len(a[0].Args) >= 3 && a[0].Args[0].Op == "alloc" && a[0].Args[1].Op == "none" && name == "len" {
+			// new([N]byte)[:N] (make with a constant size)
+			if n, ok := a[0].Args[2].IntVal(); ok {
+				return intTerm(n)
+			}
+		}
 		if a[0].Op == "append" && name == "len" {
 			if n, ok := constLen(a[0]); ok {
 				return intTerm(n)
